@@ -1,4 +1,5 @@
 import QProofs.C09
+import QProps.C08
 /-!
 # C09 — linear estimation inverts the forward model (property theorems)
 
@@ -223,6 +224,53 @@ theorem lsqExact_optimal (A : Mat Rat m n) (b f : Vec Rat m) (v : Vec Rat n)
     abel
   rw [e, Matrix.mulVec_sub, Matrix.mulVec_mulVec, this, sub_self]
 
+/-! ## C08 ∘ C09: exact data of the object built from `var₀` are inverted to `var₀` -/
+
+/-- C09.8a end-to-end (any tomography type): let `cs` be the coefficient dictionary of C08, `A`, `b` its
+`calc_matA()` / `calc_vecB()` as executable matrix / vector, `G` numpy's `inv(AᵀA)` (contract), and let the data
+vector be the forward model's prediction `matA·var₀ + vecB` for some variable vector `var₀`.  Then the coded linear
+estimate is `var₀`.  (The contract already forces the statistics map to be injective, `contract_injective`.) -/
+theorem lin_recovers_var [Field K] (cs : List (QM.C08.Coeff K)) (A : Mat K m n) (b : Vec K m)
+    (G : Mat K n n) (hA : rowsOf A = QM.C08.matA cs) (hb : b.toList = QM.C08.vecB cs) (hc : Contract G A)
+    (var0 : Vec K n) (f : Vec K m) (hf : f.toList = QM.C08.predictRaw cs var0.toList) :
+    estOne (aDdag G A) b f = var0 := by
+  have hfe : f = (A.mulVec var0).add b := by
+    apply Vector.toList_inj.1
+    rw [hf, forward_toList cs A b hA hb var0]
+  rw [hfe]
+  exact est_exact G A b var0 hc
+
+/-- C09.8b end-to-end through the circuit: if the dictionary entries predict the circuits of all schedules on the
+object built from `var₀` (conclusion of `QM.C08.qst_affine / povmt_affine / qpt_affine / qmpt_affine`) and the data
+are exactly those circuit distributions, concatenated in schedule order, the linear estimate is `var₀` — the
+estimator returns the object the data came from. -/
+theorem lin_recovers_from_circuit [Field K] (per : List (List (List K × K))) (A : Mat K m n) (b : Vec K m)
+    (G : Mat K n n) (hA : rowsOf A = QM.C08.matA (QM.C08.mkCoeffs per))
+    (hb : b.toList = QM.C08.vecB (QM.C08.mkCoeffs per)) (hc : Contract G A) (var0 : Vec K n)
+    (circuit : Option (List (List K))) (dists : List (List K))
+    (haff : circuit = some (per.map fun rows => rows.map (QM.C08.rowVal var0.toList)))
+    (hd : circuit = some dists) (f : Vec K m) (hf : f.toList = dists.flatten) :
+    estOne (aDdag G A) b f = var0 := by
+  apply lin_recovers_var (QM.C08.mkCoeffs per) A b G hA hb hc var0 f
+  rw [hf, QM.C08.predictRaw_mkCoeffs]
+  rw [haff] at hd
+  injection hd with hd
+  rw [← hd]
+
+/-- C09.8c the QST instance, hypotheses stated on the model's own functions: dictionary from `qstCoeffs`, data from
+`qstCircuit` on the state built from `var₀`. (POVMT / QPT / QMPT are the same one-liner from `lin_recovers_from_circuit`
+and the corresponding `*_affine` theorem of C08.) -/
+theorem qst_lin_recovers [Field K] (flag : Bool) (r : K) (povms : List (List (List K))) (scheds : List Nat)
+    (cs : List (QM.C08.Coeff K)) (A : Mat K m n) (b : Vec K m) (G : Mat K n n)
+    (hcs : QM.C08.qstCoeffs flag r povms scheds = some cs)
+    (hA : rowsOf A = QM.C08.matA cs) (hb : b.toList = QM.C08.vecB cs) (hc : Contract G A)
+    (var0 : Vec K n) (dists : List (List K))
+    (hd : QM.C08.qstCircuit flag r povms scheds var0.toList = some dists)
+    (f : Vec K m) (hf : f.toList = dists.flatten) :
+    estOne (aDdag G A) b f = var0 := by
+  obtain ⟨per, rfl, haff⟩ := QM.C08.qst_affine flag r povms scheds cs var0.toList hcs
+  exact lin_recovers_from_circuit per A b G hA hb hc var0 _ dists haff hd f hf
+
 /-! ## non-vacuity: concrete instances of the hypotheses -/
 
 /-- a 3×2 forward model of full column rank and the exact inverse of `AᵀA` -/
@@ -249,5 +297,20 @@ example : lsqCert (#v[#v[1, 0], #v[0, 1], #v[1, 1]] : Mat Rat 3 2) (#v[0, 0, 1/2
 
 example : lsqExact (#v[#v[1, 0], #v[0, 1], #v[1, 1]] : Mat Rat 3 2) (#v[0, 0, 1/2] : Vec Rat 3)
     (#v[1, 0, 0] : Vec Rat 3) = some #v[1/2, -1/2] := by decide +kernel
+
+/-- toy QST (vectors of length 2, one two-outcome POVM, flag = False): dictionary, its matrix form, the exact
+inverse, and exact circuit data — all hypotheses of `qst_lin_recovers` hold -/
+example : QM.C08.qstCoeffs false (1 : Rat) [[[1, 0], [1, 1]]] [0] =
+    some (QM.C08.mkCoeffs [[([1, 0], 0), ([1, 1], 0)]]) := by decide +kernel
+
+example : rowsOf (#v[#v[1, 0], #v[1, 1]] : Mat Rat 2 2) =
+    QM.C08.matA (QM.C08.mkCoeffs [[([1, 0], 0), ([1, 1], 0)]]) := by
+  rw [QM.C08.matA, QM.C08.dict_sorted]; decide +kernel
+
+example : Contract (K := ℚ) (#v[#v[1, -1], #v[-1, 2]] : Mat ℚ 2 2) (#v[#v[1, 0], #v[1, 1]] : Mat ℚ 2 2) := by
+  unfold Contract; decide +kernel
+
+example : QM.C08.qstCircuit false (1 : Rat) [[[1, 0], [1, 1]]] [0] (#v[1/3, 1/4] : Vec Rat 2).toList =
+    some [[1/3, 7/12]] := by decide +kernel
 
 end QM.C09
